@@ -1,3 +1,4 @@
 pub mod text;
 pub mod edit;
 pub mod matchw;
+pub mod windows;
